@@ -12,6 +12,7 @@ From CK Require Import Exec.
 From CK Require Import Ops.
 From CK Require Import Struct.
 From CK Require Import Link.
+From CK Require Import Link2.
 Close Scope Qc_scope. Close Scope Q_scope. Close Scope Z_scope. Open Scope nat_scope.
 
 (* for any map conj compatible with + and * (a semiring endomorphism), the conjugated circuit evaluates to conj applied entrywise to the original circuit's values *)
@@ -70,3 +71,16 @@ Theorem C07_conjugate_executable :
          frag c = true -> conjugate_m c = Ok c' -> den_all c' y = option_map (map (map cconj)) (den_all c y).
 Proof. exact conjugate_link. Qed.
 Print Assumptions C07_conjugate_executable.
+
+(* EXECUTABLE level, every layer kind conjugate_m accepts: conjugating twice gives back a circuit with the original denotation at every node *)
+Theorem C07_involutive_executable :
+  forall (c c' c'' : circuit) (y : asg),
+         conjugate_m c = Ok c' -> conjugate_m c' = Ok c'' -> den_all c'' y = den_all c y.
+Proof. exact conjugate_conjugate_den. Qed.
+Print Assumptions C07_involutive_executable.
+
+(* the second conjugation never fails once the first succeeded *)
+Theorem C07_second_conjugation_defined :
+  forall c c' : circuit, conjugate_m c = Ok c' -> conjugate_m c' = Ok (cj2_exec c).
+Proof. exact conjugate_m_twice. Qed.
+Print Assumptions C07_second_conjugation_defined.
